@@ -20,6 +20,13 @@ pub struct Param {
     pub name: String,
     pub dflt: Option<Expr>,
     pub splat: bool,
+    /// type annotation `name: ann` (any expression; rendered as an identifier, `null`, or parenthesised)
+    pub ann: Option<Expr>,
+}
+impl Param {
+    pub fn plain(name: &str) -> Param {
+        Param { name: name.to_string(), dflt: None, splat: false, ann: None }
+    }
 }
 #[derive(Clone, Debug)]
 pub enum ForIt {
@@ -171,6 +178,16 @@ impl Expr {
                             s.push_str("...");
                         }
                         s.push_str(&p.name);
+                        if let Some(a) = &p.ann {
+                            // the parser takes ONE operand here: identifiers and `null` as they are,
+                            // everything else parenthesised (compound forms already are)
+                            let t = a.src();
+                            if matches!(a, Expr::Ident(_) | Expr::Null) || t.starts_with('(') {
+                                s.push_str(&format!(": {}", t));
+                            } else {
+                                s.push_str(&format!(": ({})", t));
+                            }
+                        }
                         if let Some(d) = &p.dflt {
                             s.push_str(&format!(" = {}", d.src()));
                         }
@@ -278,9 +295,14 @@ impl Expr {
             Expr::Lambda(ps, body) => {
                 let ps_s = ps
                     .iter()
-                    .map(|p| match &p.dflt {
-                        Some(d) => format!("(param {} {} {})", p.name, if p.splat { 1 } else { 0 }, d.sexp()),
-                        None => format!("(param {} {})", p.name, if p.splat { 1 } else { 0 }),
+                    .map(|p| {
+                        let sp = if p.splat { 1 } else { 0 };
+                        match (&p.dflt, &p.ann) {
+                            (Some(d), None) => format!("(param {} {} {})", p.name, sp, d.sexp()),
+                            (None, None) => format!("(param {} {})", p.name, sp),
+                            (Some(d), Some(a)) => format!("(param {} {} (dflt {}) (ann {}))", p.name, sp, d.sexp(), a.sexp()),
+                            (None, Some(a)) => format!("(param {} {} (ann {}))", p.name, sp, a.sexp()),
+                        }
                     })
                     .collect::<Vec<_>>()
                     .join(" ");
